@@ -367,6 +367,33 @@ def r10_pass_keeps_node(run, F, modules=("analyzer::constness", "analyzer::funct
            "%d match arms of rewriting passes examined (floor %d)" % (n, floor))
 
 
+def r11_length_not_narrowed(run, F):
+    """The length the typer holds for `[N]T` (a usize, possibly a named constant) is the length of the LLVM array type: on its way
+    into LLVMArrayType (a 32 bit count) it is converted with a checked conversion and never narrowed with `as` -- `as u32` keeps
+    `N mod 2^32`, so `|x|` by name, `|:[N]T|` and struct sizes would follow the truncated type while slice headers carry N."""
+    from rules import origins
+    n = 0
+    for p, b in sorted(F.lib.bodies.items()):
+        if "hir" not in b or not F.rel(b["file"]).endswith(("alpha/generator.rs", "alpha/value_type.rs")):
+            continue
+        for x in walk(b["hir"]):
+            if x.get("k") != "Cast" or x.get("t") is None or not isinstance(x.get("e"), dict):
+                continue
+            src = hirq.unwrap_trivial(x["e"])
+            st = str(F.lib.types[src["t"]]).lstrip("&") if src.get("t") is not None else "?"
+            tt = str(F.lib.types[x["t"]])
+            width = {"u8": 8, "i8": 8, "u16": 16, "i16": 16, "u32": 32, "i32": 32, "u64": 64, "i64": 64, "usize": 64, "isize": 64, "u128": 128, "i128": 128}
+            if st not in width or tt not in width or width[tt] >= width[st]:
+                continue
+            n += 1
+            o = origins.origins(b["hir"], x["e"], b.get("params", ()))
+            lens = sorted(str(k) for k in o if k[0] in ("patfield", "field") and str(k[-1]) in ("length", "named_length"))
+            if lens:
+                run.ob("R11-LENGTH-NOT-NARROWED", "%s|%s as %s" % (p.split("::")[-1], st, tt), False, F.where(b, x),
+                       "an array length (%s) is narrowed with `as %s`: lengths of 2^%d and more wrap around instead of being refused" % (lens[0], tt, width[tt]))
+    run.ob("R11-LENGTH-NOT-NARROWED", "scan", n >= 20, "src/alpha/generator.rs", "%d narrowing `as` casts examined (31 counted); none takes an array length" % n)
+
+
 def r8_array_len(run, F):
     """|x| of a fixed-size array is the element count of its LLVM array type (LLVMGetArrayLength), not a quotient of sizes:
     i1 elements occupy 8 bits each in an array but have a 1-bit type size, empty structs have size 0."""
@@ -425,6 +452,7 @@ def check(run):
     r8_array_len(run, F)
     r9_named_length_guard(run, F)
     r10_pass_keeps_node(run, F)
+    r11_length_not_narrowed(run, F)
     # the length of a string literal passed as a view is the number of its bytes (shared with C09.R7)
     from props import c09
     c09.r7_string_bytes(run, F)
